@@ -258,5 +258,13 @@ def finish (cfg : Cfg) : Nat → State → State
   | 0, s => s
   | f + 1, s => if allFin cfg s then s else finish cfg f (roundRobin cfg s)
 
+/-- completion phase of a waker-respecting executor: rounds that poll the tasks that are woken at
+    the start of the round (stops when there is none) -/
+def finishW (cfg : Cfg) : Nat → State → State
+  | 0, s => s
+  | f + 1, s =>
+    if allFin cfg s then s
+    else if (runnable cfg s).isEmpty then s
+    else finishW cfg f (exec cfg (runnable cfg s) s)
 
 end MdModel.Once
